@@ -65,4 +65,25 @@ def intDiv (x y : Int) : Except String Int :=
 def intMod (x y : Int) : Except String Int :=
   if y = 0 then .error "integer divide by zero" else .ok (Int.tmod x y)
 
+/-- dereference of a pointer FIELD (modelled as `Option`): nil panics -/
+def deref {α : Type} (p : Option α) : Except String α :=
+  match p with
+  | some v => .ok v
+  | none => .error "invalid memory address or nil pointer dereference"
+
+/-- `for i, x := range xs { body }`: `body` returns `(some r, st)` for an early `return r`, `(none, st)` to go on;
+the loop state `st` carries the outer variables the body assigns. -/
+def forRangeFrom {α σ ρ : Type} (f : Int → α → σ → Except String (Option ρ × σ)) :
+    List α → Int → σ → Except String (Option ρ × σ)
+  | [], _, st => .ok (none, st)
+  | x :: xs, i, st =>
+    match f i x st with
+    | .error e => .error e
+    | .ok (some r, st') => .ok (some r, st')
+    | .ok (none, st') => forRangeFrom f xs (i + 1) st'
+
+def forRange {α σ ρ : Type} (xs : List α) (st : σ) (f : Int → α → σ → Except String (Option ρ × σ)) :
+    Except String (Option ρ × σ) :=
+  forRangeFrom f xs 0 st
+
 end Go
